@@ -21,7 +21,7 @@ from fractions import Fraction
 from .sorts import (Int, Real, Float, Bool, Str, CSet, Ballot, Profile, Seq, Opt, Dict, Tup, Obj, NoneS, Fn, StateRef)  # noqa: F401
 
 __all__ = ["contract", "spec", "REGISTRY", "Int", "Real", "Float", "Bool", "Str", "CSet", "Ballot", "Profile", "Seq",
-           "Opt", "Dict", "Tup", "Obj", "NoneS", "Fn", "StateRef", "implies", "Fraction", "lemma", "floor", "div", "dsum"]
+           "Opt", "Dict", "Tup", "Obj", "NoneS", "Fn", "StateRef", "implies", "Fraction", "lemma", "floor", "div", "dsum", "reversed_seq"]
 
 
 def implies(a, b):
@@ -31,6 +31,10 @@ def implies(a, b):
 def floor(x):
     import math
     return math.floor(x)
+
+
+def reversed_seq(x):
+    return tuple(reversed(x))
 
 
 def dsum(d):
@@ -173,7 +177,10 @@ class Registry:
                 i = self.contracts.get((rel, qual + "@" + cname))
                 if i is not None:
                     return i
-        return self.contracts.get((rel, qual))
+        i = self.contracts.get((rel, qual))
+        if i is not None and getattr(i.cls, "frame_only", False):
+            return None  # frame-only contracts say nothing about the result: the callee is inlined
+        return i
 
     def class_node(self, clsname):
         """find a repo class by name (searching the elections / models modules)"""
